@@ -26,7 +26,7 @@ REQUIRED = ["eval:parse_y0", "C12:meaning-equal", "C12:object-equality-checked"]
 TIMEOUT = {"quick": 900, "thorough": 7200}
 
 OPTS = dict(marks=True, interventions=True, populations=True, constants=True, multiworld=True, qfactors=True,
-            sorted_vars=True)
+            sorted_vars=True, reflexive=True)
 
 
 def in_unnested_family(e) -> bool:
